@@ -1,7 +1,7 @@
 SPECIFICATION Spec
 CONSTANTS
   Leaves = {"1px", "2em", "var(--a)"}
-  Ops = {"+", "-", "*", "/"}
+  Ops = {"-", "*", "/"}
   Tops = {"calc("}
   Fns = {}
   MaxOps = 3
